@@ -3,14 +3,29 @@ from suites import gens
 
 
 def c01_suites(tier):
-    return [gens.PermuteSuite(), gens.StartRowSuite(), gens.GenHistorySuite()]
+    return [gens.PermuteSuite(), gens.StartRowSuite(), gens.GenHistorySuite(), gens.MethodRowsSuite()]
+
+
+def c02_suites(tier):
+    return [gens.PNStringSuite(), gens.PermuteSuite(), gens.MethodRowsSuite(with_calls=False), gens.GenHistorySuite()]
 
 
 def c03_suites(tier):
-    return [gens.PermuteSuite(), gens.GenHistorySuite()]
+    return [gens.PermuteSuite(), gens.GenHistorySuite(), gens.MethodRowsSuite()]
+
+
+def c04_suites(tier):
+    return [gens.MethodRowsSuite(with_calls=True), gens.GenHistorySuite()]
+
+
+def c05_suites(tier):
+    return [gens.MethodRowsSuite(with_calls=True, with_reset=True), gens.GenHistorySuite()]
 
 
 PROPS = {
     "C01": {"suites": c01_suites},
+    "C02": {"suites": c02_suites},
     "C03": {"suites": c03_suites},
+    "C04": {"suites": c04_suites},
+    "C05": {"suites": c05_suites},
 }
